@@ -347,13 +347,15 @@ def run(ctx, name, kind, **kw):
         for cname in kw["cnames"]:
             curve = lib.BY_NAME[cname]
             n = lib.dom_of(curve).n
-            for entry in ("SigningKey.generate", "ECDH.generate_private_key", "randrange", "sign"):
+            for entry in ("SigningKey.generate", "ECDH.generate_private_key", "randrange", "sign", "sign_by_key_generated_from_a_stream", "ECDH.generate_private_key_second_call",
+                          "ECDH.generate_private_key_after_load"):
                 for variant in ("random", "all_ones_then_random", "zeros"):
                     nb = 8 * (lib.dom_of(curve).nbytes() + 1)
                     data = {"random": bytes(rng.getrandbits(8) for _ in range(nb)), "all_ones_then_random": b"\xff" * (nb // 4) + bytes(rng.getrandbits(8) for _ in range(nb)),
                             "zeros": b"\x00" * nb}[variant]
                     st = sigs.Stream(data)
                     m = model_randrange(n, data)
+                    prev_secret = {}
                     os.urandom = st
                     try:
                         if entry == "SigningKey.generate":
@@ -364,6 +366,32 @@ def run(ctx, name, kind, **kw):
                             got = int(e_.private_key.privkey.secret_multiplier)
                         elif entry == "randrange":
                             got = util.randrange(n)
+                        elif entry in ("ECDH.generate_private_key_second_call", "ECDH.generate_private_key_after_load"):
+                            # an ECDH object that already HAS a local key draws a fresh one when asked to generate
+                            os.urandom = real
+                            e_ = ECDH(curve)
+                            if entry.endswith("second_call"):
+                                e_.generate_private_key()
+                            else:
+                                e_.load_private_key(ecdsa.SigningKey.from_secret_exponent(1 + n // 5, curve))
+                            prev_secret["v"] = int(e_.private_key.privkey.secret_multiplier)
+                            os.urandom = st
+                            e_.generate_private_key()
+                            got = int(e_.private_key.privkey.secret_multiplier)
+                        elif entry == "sign_by_key_generated_from_a_stream":
+                            # the key was generated from a caller's (replayable) stream; a later signature without an entropy argument
+                            # reads the operating system's generator, not that stream
+                            os.urandom = real
+                            gen_stream = sigs.Stream(bytes(rng.getrandbits(8) for _ in range(nb)) * 6)
+                            sk_ = ecdsa.SigningKey.generate(curve, entropy=gen_stream, hashfunc=hashlib.sha256)
+                            used = gen_stream.pos
+                            d_ = int(sk_.privkey.secret_multiplier)
+                            os.urandom = st
+                            r_, s2 = sk_.sign(b"m", sigencode=lambda r, s, o: (r, s))
+                            e2 = ecdsa_ref.digest_to_e(lib.dom_of(curve), hashlib.sha256(b"m").digest(), True)
+                            got = (e2 + r_ * d_) * nt.inv(s2, n) % n
+                            if gen_stream.pos != used:
+                                got = "the key's generation stream was read again (%d more bytes)" % (gen_stream.pos - used)
                         else:
                             d_ = 1 + (n // 3)
                             sk_ = ecdsa.SigningKey.from_secret_exponent(d_, curve, hashlib.sha256)
@@ -375,6 +403,15 @@ def run(ctx, name, kind, **kw):
                         got, outcome = None, "raised %s: %s" % (type(ex).__name__, ex)
                     finally:
                         os.urandom = real
+                    if isinstance(got, str):
+                        ctx.case("os_urandom_model", key="%s|%s|%s" % (cname, entry, variant), nontrivial=True)
+                        ctx.violation("default_entropy_value_not_the_one_the_bytes_determine", "%s on %s: %s" % (entry, cname, got), dict(curve=cname, entry=entry))
+                        continue
+                    if entry.startswith("ECDH.generate_private_key_") and outcome is None and got == prev_secret.get("v"):
+                        ctx.case("os_urandom_model", key="%s|%s|%s" % (cname, entry, variant), nontrivial=True)
+                        ctx.violation("default_entropy_value_not_the_one_the_bytes_determine", "%s on %s: generate_private_key() on an ECDH object that already had a local key kept that key (no new scalar drawn)" % (entry, cname),
+                                      dict(curve=cname, entry=entry))
+                        continue
                     if st.pos == 0 and outcome is None:
                         ctx.count("os_urandom_not_consulted_by_" + entry)      # the library reads the OS generator some other way: nothing to compare
                         continue
